@@ -67,6 +67,7 @@ ENCODED = [
     "tensorly.decomposition._tr_als.tensor_ring_als",
     "tensorly.decomposition._tr_als.tensor_ring_als_sampled",
     "tensorly.decomposition._tt.tensor_train",
+    "tensorly.contrib.decomposition._tt_cross.tensor_train_cross (initialisation)",
     "tensorly.tenalg.svd.randomized_range_finder",
     "tensorly.tenalg.svd.randomized_svd",
     "tensorly.tenalg.svd.svd_interface",
@@ -79,7 +80,7 @@ BOUNDS = {
     "thorough": "additionally seed 1, two outer sweeps for the CP / TR-ALS / regression entry points, a 3x2x2 data tensor; PARAFAC2 at R=1 only",
 }
 OUTSIDE = [
-    "tensor_train_cross (tensorly/contrib/decomposition/_tt_cross.py): argmax pivoting over maxvol iterations on LAPACK outputs with data-dependent loop lengths -- not encodable within reach",
+    "tensor_train_cross beyond its initialisation (tensorly/contrib/decomposition/_tt_cross.py): argmax pivoting over maxvol iterations on LAPACK outputs with data-dependent loop lengths -- not encodable within reach; the seeded index/core initialisation (n_iter_max=0) is covered for at most 8 integer draws per stream (two redraws after collisions)",
     "symmetric_parafac_power_iteration / parafac_power_iteration: draw from np.random directly but accept no random_state (not in the quantifier)",
     "non-NumPy backends; bit-level behaviour of the Mersenne Twister itself (modelled as an uninterpreted function of seed, draw index and position)",
     "sizes > 3, more than two sweeps",
@@ -508,6 +509,28 @@ def ep_sample_khatri_rao(E, cfg):
     return lambda rs: sample_khatri_rao([A, B, C], 2, random_state=rs, **kw)
 
 
+def ep_tt_cross_init(E, cfg):
+    """index/core initialisation of tensor_train_cross (n_iter_max=0: the maxvol sweeps are outside the claim).  The start
+    indices are redrawn on collision: explored up to cfg['int_draw_limit'] integer draws per stream"""
+    from tensorly.contrib.decomposition import tensor_train_cross
+
+    X = E.real("X", (2, 2, 2))
+    import io, contextlib
+
+    def call(rs):
+        # with a zero budget the function draws its start indices and cores and then raises "Maximum number of iterations
+        # reached": nothing is returned, the observable is the use of the random streams (global state untouched)
+        try:
+            with contextlib.redirect_stdout(io.StringIO()):
+                return list(tensor_train_cross(X, [1, 2, 2, 1], tol=0, n_iter_max=0, random_state=rs))
+        except ValueError as e:
+            if "Maximum number of iterations" not in str(e):
+                raise
+            return []
+
+    return call
+
+
 def ep_randomized_range_finder(E, cfg):
     from tensorly.tenalg.svd import randomized_range_finder
 
@@ -617,6 +640,7 @@ SEEDED = {
     "tensor_ring_als_sampled": ep_tensor_ring_als_sampled,
     "randomised_parafac": ep_randomised_parafac,
     "sample_khatri_rao": ep_sample_khatri_rao,
+    "tt_cross_init": ep_tt_cross_init,
     "randomized_range_finder": ep_randomized_range_finder,
     "randomized_svd": ep_randomized_svd,
     "svd_interface_randomized": ep_svd_interface_randomized,
@@ -785,6 +809,7 @@ def configs(tier):
     add("randomised_parafac", "random", shape=(2, 2, 1) if q else (2, 2, 2))
     add("sample_khatri_rao")
     add("sample_khatri_rao", "skip_rows", one, kw=dict(skip_matrix=1, return_sampled_rows=True))
+    add("tt_cross_init", "collisions_le_2", one, int_draw_limit=8)  # 6 draws without collision
     add("randomized_range_finder")
     add("randomized_svd")
     add("randomized_svd", "transposed_branch", one, mshape=(3, 2), k=3)
@@ -840,6 +865,7 @@ def _harness(E, cfg):
         # queries here are either syntactically valid or have an easy model (a global draw that differs): a long refinement of
         # root atoms buys nothing, the float replay decides
         E.q_timeout_ms = cfg.get("q_timeout_ms", 6000)
+        backend.POLICY.int_draw_limit = cfg.get("int_draw_limit")
         from vt import sym as _sym
 
         _sym.CTX.eval_first = True  # stub memo lookups compare large argument terms: refute by evaluation before expanding
